@@ -126,3 +126,59 @@ def distribution(run):
         ys = [ctoks[1 + 5 * r + 2] for r in range(nr)]
         d["with_split_rows"] += len(set(ys)) < len(ys)
     return d
+
+
+TURNED = (2, 3, 6, 7)
+
+
+def rows_of(ctoks):
+    nr = int(ctoks[0])
+    return [[int(x) for x in ctoks[1 + 5 * r:6 + 5 * r]] for r in range(nr)]
+
+
+def std_design(ctoks):
+    """the domain of c01_legalize_circuit_legal (std_design of coq/LegalizerSoundProofs.v = the property's quantifier) on LG circuit
+    tokens: rows of one positive height, pairwise disjoint rectangles, not turned; movable cells of positive placed width whose placed
+    height is a positive multiple of the row height, turned only without row polarity.  Returns None (inside) or the reason."""
+    rows = rows_of(ctoks)
+    cells, _ = cells_of(ctoks)
+    if not rows:
+        return None if all(c[6] for c in cells) else "no row"
+    rh = rows[0][3] - rows[0][2]
+    if rh <= 0 or any(r[3] - r[2] != rh for r in rows):
+        return "rows not of one positive height"
+    if any(r[0] > r[1] for r in rows):
+        return "inverted row (minX > maxX: outside the domain of the free-space model, see C15)"
+    if any(r[4] not in (0, 1, 4, 5) for r in rows):
+        return "turned row"
+    for i, a in enumerate(rows):
+        for b in rows[i + 1:]:
+            if not (a[1] <= b[0] or b[1] <= a[0] or a[3] <= b[2] or b[3] <= a[2]):
+                return "rows overlap"
+    for c in cells:
+        if c[6]:
+            continue
+        pw, ph = (c[3], c[2]) if c[4] in TURNED else (c[2], c[3])
+        if pw <= 0 or ph <= 0 or ph % rh != 0:
+            return "movable cell of non-positive width or of a height that is no positive multiple of the row height"
+        if c[4] in TURNED and c[5] != 0:
+            return "turned movable cell with a row polarity"
+        if not 0 <= c[4] <= 7:
+            return "orientation out of range"
+    return None
+
+
+def parse_outcome(res):
+    """'OK x y o ...' | 'NOROW ; x y o ...' | 'THROW msg ; x y o ...' -> (kind, placement ints or None)"""
+    toks = res.split()
+    if not toks:
+        return ("EMPTY", None)
+    try:
+        if toks[0] == "OK":
+            return ("OK", [int(x) for x in toks[1:]])
+        if ";" in toks:
+            k = len(toks) - 1 - toks[::-1].index(";")
+            return (" ".join(toks[:k]), [int(x) for x in toks[k + 1:]])
+    except ValueError:
+        pass
+    return (" ".join(toks)[:200], None)
